@@ -2,7 +2,7 @@ ENGINES = [
     {"name": "csym", "path": "vt/csym.py", "serves_properties": ["C01", "C02", "C03", "C10", "C13", "C14", "C17", "C18"],
      "kind_free_text": "symbolic interpreter of traits/ctraits.c over clang's JSON AST (regenerated from the current source on every run), "
                        "CPython API contracts in vt/capi.py, shared path condition with symx; memory-safety assertions on every path"},
-    {"name": "symx", "path": "vt/symx.py", "serves_properties": ["C01", "C03", "C04", "C05", "C06", "C07", "C09", "C13", "C15", "C17", "C20"],
+    {"name": "symx", "path": "vt/symx.py", "serves_properties": ["C01", "C03", "C04", "C05", "C06", "C07", "C09", "C11", "C13", "C15", "C17", "C20"],
      "kind_free_text": "symbolic execution of the real Python code on z3-backed proxies (DFS over decision prefixes by re-execution), "
                        "environment models for built-ins (vt/envmodels.py), concrete replay of every counterexample and one witness per path"},
 ]
@@ -187,4 +187,17 @@ CHECKS["C09"] = dict(
     note="(a) assumes the representation invariant (at most one equal entry per list, counts >= 1). (b): solver contributes choice "
          "feasibility only. Outside: dispatch='ui'/'new', ObserverChangeNotifier counting (it is not counted by design), gc at every "
          "point of a history (three fixed points only).")
+CHECKS["C11"] = dict(
+    text="(a) Solver-decided: Delegate.__init__'s prefix classification runs natively on a symbolic prefix string (z3 String, length <= 6): "
+         "prefix_type and stored prefix match the documented rule ('' / explicit name / 'p*' / '*') for every string; the classified "
+         "definition is replayed on a real object (reads the documented target attribute). (b) Bounded histories (k=2/3) on real objects "
+         "through the compiled code: assign via the deferring object, on the current delegate, on a non-current one, swap the delegate, "
+         "delete the local value, invalid assignment, for 4 prefix styles x DelegatesTo/PrototypedFrom x chain depth 1-2: read coherence, "
+         "store-into-delegate-only / local copy, rejection by the target's trait, notification iff linked (on_trait_change and observe); a "
+         "chain through never-materialised default delegates; a delegation cycle must end with a Python exception (a crash of the worker "
+         "is a violation).",
+    design_ref="DESIGN.md section 4 C11", technique="symbolic execution with z3 strings for the prefix classification; bounded exploration through the compiled extension for histories",
+    note="Part (b) is exhaustive bounded enumeration (the compiled code runs concretely; the solver contributes choice feasibility only). "
+         "Known finding: wildcard prefix styles never notify. getattr_delegate/setattr_delegate are not interpreted symbolically (type-slot "
+         "calls and instance-trait cloning would need models beyond the time available): said in DESIGN.md.")
 NOT_APPLICABLE = {p: NOT_BUILT for p in ["C%02d" % i for i in range(1, 21)]}
